@@ -623,5 +623,15 @@ def r06_16(ctx):
         raise AnalysisError(f"only {n} foreign text sources found in the numeric branches of Symbol.str_value")
 
 
+def r06_17(ctx):
+    """R06.17 (a) the value is checked and clamped against the *first* range whose condition holds, in the evaluator as in the dialog
+    (C17 R17.4); (b) a condition over a huge int and a float can be evaluated (C09 R09.11) - a range or default condition that raises
+    takes str_value and every generator with it."""
+    from . import c09, c17
+    from .common import delegate
+    delegate(ctx, c17.r17_4, lambda c: 'Symbol.str_value' in c)
+    delegate(ctx, c09.r09_11, lambda c: True)
+
+
 def rules():
-    return [("R06.16", r06_16, 6), ("R06.15", r06_15, 4), ("R06.14", r06_14, 2), ("R06.13", r06_13, 3), ("R06.12", r06_12, 1), ("R06.11", r06_11, 3), ("R06.10", r06_10, 12), ("R06.6", r06_6, 14), ("R06.7", r06_7, 3), ("R06.1", r06_1, 7), ("R06.2", r06_2, 6), ("R06.3", r06_3, 2), ("R06.4", r06_4, 20), ("R06.5", r06_5, 3), ("R06.8", r06_8, 12), ("R06.9", r06_9, 1)]
+    return [("R06.17", r06_17, 3), ("R06.16", r06_16, 6), ("R06.15", r06_15, 4), ("R06.14", r06_14, 2), ("R06.13", r06_13, 3), ("R06.12", r06_12, 1), ("R06.11", r06_11, 3), ("R06.10", r06_10, 12), ("R06.6", r06_6, 14), ("R06.7", r06_7, 3), ("R06.1", r06_1, 7), ("R06.2", r06_2, 6), ("R06.3", r06_3, 2), ("R06.4", r06_4, 20), ("R06.5", r06_5, 3), ("R06.8", r06_8, 12), ("R06.9", r06_9, 1)]
